@@ -201,8 +201,10 @@ def opOk (c : Cfg) (st : St) : Op → Bool
   | .free h => decide (h < st.hs.length)
   | .keep _ n => decide (1 ≤ n) && (decide (c.maxq < n) ||
       (decide ((activeIds st.hs).length + n ≤ limit c) && (!c.nv || nvKeepOk c st n)))
-  | .seq _ _ _ => false
-  | .ctx _ _ _ _ => false
+  | .seq _ _ _ => decide ((activeIds st.hs).length + 1 ≤ limit c)
+  | .ctx _ n sequential _ => (!sequential && decide (c.maxq < n)) ||
+      (if sequential || c.single then decide ((activeIds st.hs).length + 1 ≤ limit c)
+       else decide ((activeIds st.hs).length + n ≤ limit c))
   | .flush => true
   | .close => true
 
@@ -1026,6 +1028,171 @@ theorem inv_keep {c : Cfg} {st : St} (hi : Inv c st) {r : Bool} {n : Nat} (h1 : 
               · exact Or.inl hw0
               · exact Or.inr (Or.inr ⟨by omega, h⟩)
 
+/-! ### EPR loop constructs (sequential keep with post routine, context blocks) -/
+
+theorem releaseLast_append (a b : List Handle) (n : Nat) (h : b.length = n) :
+    releaseLast n (a ++ b) = a ++ b.map (fun q => (⟨q.id, false⟩ : Handle)) := by
+  unfold releaseLast
+  have : (a ++ b).length - n = a.length := by simp [h]
+  rw [this, List.take_left', List.drop_left']
+  · rfl
+  · rfl
+
+theorem activeIds_release (a b : List Handle) :
+    activeIds (a ++ b.map (fun q => (⟨q.id, false⟩ : Handle))) = activeIds a := by
+  rw [activeIds_append, activeIds_all_inactive, List.append_nil]
+
+theorem run_uses {m : Nat} {u : List Nat} {d : Nat} (h1 : d < m) (h2 : d ∈ u) :
+    ∀ (g : Nat) (rest : List Ev), run m u (List.replicate g (.use d) ++ rest) = run m u rest := by
+  intro g
+  induction g with
+  | zero => intro rest; rfl
+  | succ g ih =>
+    intro rest
+    simp only [List.replicate_succ, List.cons_append, run, step_use h1 h2]
+    exact ih rest
+
+theorem run_bodyEvs {m : Nat} {u : List Nat} {d : Nat} (b : Body) (h1 : d < m) (h2 : d ∈ u) :
+    ∃ u', run m u (bodyEvs d b) = .ok u' ∧ ∀ w, w ∈ u' ↔ (w ∈ u ∧ w ≠ d) := by
+  unfold bodyEvs
+  rw [run_uses h1 h2]
+  cases b.consume with
+  | meas => exact run_meas_free_spec h1 h2
+  | free => exact run_free_spec h1 h2
+
+theorem run_bodyLoop {m : Nat} (b : Body) : ∀ (ids u : List Nat), (∀ d ∈ ids, d ∉ u ∧ d < m) →
+    ∃ u', run m u (ids.flatMap (fun d => Ev.deliver d :: bodyEvs d b)) = .ok u' ∧
+      ∀ w, w ∈ u' ↔ w ∈ u := by
+  intro ids
+  induction ids with
+  | nil => intro u _; exact ⟨u, rfl, fun _ => Iff.rfl⟩
+  | cons d t ih =>
+    intro u h
+    obtain ⟨hd1, hd2⟩ := h d List.mem_cons_self
+    obtain ⟨u1, hu1, hm1⟩ := run_bodyEvs (u := d :: u) b hd2 List.mem_cons_self
+    have hm1' : ∀ w, w ∈ u1 ↔ w ∈ u := by
+      intro w; rw [hm1 w, List.mem_cons]
+      constructor
+      · rintro ⟨hw | hw, hne⟩
+        · exact absurd hw hne
+        · exact hw
+      · intro hw; exact ⟨Or.inr hw, fun e => hd1 (e ▸ hw)⟩
+    obtain ⟨u2, hu2, hm2⟩ := ih u1 (fun d' hd' =>
+      ⟨fun hh => (h d' (List.mem_cons_of_mem _ hd')).1 ((hm1' d').mp hh), (h d' (List.mem_cons_of_mem _ hd')).2⟩)
+    refine ⟨u2, ?_, fun w => (hm2 w).trans (hm1' w)⟩
+    simp only [List.flatMap_cons, List.cons_append, run, step_deliver hd2 hd1]
+    rw [run_append, hu1]
+    exact hu2
+
+/-- a loop over pairs whose body consumes each pair leaves ids and unit module as they were -/
+theorem inv_loop {c : Cfg} {st : St} (hi : Inv c st) (b : Body) (hs' : List Handle) (ids : List Nat)
+    (ea : activeIds hs' = activeIds st.hs)
+    (hids : ∀ d ∈ ids, d ∉ activeIds st.hs ∧ d < c.maxq) :
+    Inv c { st with hs := hs', evs := st.evs ++ ids.flatMap (fun d => Ev.deliver d :: bodyEvs d b),
+                    lastAlloc := none } := by
+  obtain ⟨u, hu, hm⟩ := hi.runs
+  obtain ⟨u', hu', hm'⟩ := run_bodyLoop (m := c.maxq) b ids u
+    (fun d hd => ⟨fun h => (hids d hd).1 ((hm d).mp h), (hids d hd).2⟩)
+  refine ⟨?_, ?_, ?_, ⟨u', run_snoc_ok hu hu', ?_⟩, by simp⟩
+  · simp only [ea]; exact hi.nodup
+  · simp only [ea]; exact hi.bound
+  · simp only [ea]; exact hi.count
+  · intro w; simp only [ea]; rw [hm' w, hm w]
+
+theorem genEnt_hs : ∀ (n : Nat) (st : St), ∃ new, (genEnt st n).1.hs = st.hs ++ new ∧ new.length = n := by
+  intro n
+  induction n with
+  | zero => intro st; exact ⟨[], by simp [genEnt], rfl⟩
+  | succ k ih =>
+    intro st
+    obtain ⟨new, e, hl⟩ := ih { st with hs := st.hs ++ [⟨lowestUnused (activeIds st.hs), true⟩] }
+    refine ⟨⟨lowestUnused (activeIds st.hs), true⟩ :: new, ?_, by simp [hl]⟩
+    simp only [genEnt]
+    rw [e]; simp
+
+theorem mem_replicate_imp {n d w : Nat} (h : w ∈ List.replicate n d) : w = d :=
+  (List.mem_replicate.mp h).2
+
+/-- sequential-style handle creation (`sequential=True`, or a context block on
+single-communication-qubit hardware): all pairs use one id -/
+theorem inv_loop_sequential {c : Cfg} {st : St} (hi : Inv c st) (n : Nat) (b : Body)
+    (hb : (activeIds st.hs).length + 1 ≤ limit c) :
+    ∃ st1 d, createEnt c st n true = .ok (st1, List.replicate n d) ∧
+      (c.single = true → d = 0) ∧
+      Inv c { st1 with hs := releaseLast n st1.hs,
+                       evs := st1.evs ++ (List.replicate n d).flatMap (fun d => Ev.deliver d :: bodyEvs d b),
+                       lastAlloc := none } := by
+  have hlim := limit_le c
+  cases hnv : c.nv with
+  | true =>
+    obtain ⟨j1, j2, j3, _⟩ := inv_freeUp hi hnv
+    have hlim1 : limit c = c.maxq - 1 := by unfold limit; simp [hnv]
+    refine ⟨{ freeUp c st with hs := (freeUp c st).hs ++ List.replicate n ⟨0, true⟩ }, 0, ?_, fun _ => rfl, ?_⟩
+    · simp [createEnt, hnv]
+    · have hr := releaseLast_append (freeUp c st).hs (List.replicate n ⟨0, true⟩) n (by simp)
+      simp only [hr]
+      exact inv_loop j1 b _ _ (activeIds_release _ _)
+        (fun d hd => by rw [mem_replicate_imp hd]; exact ⟨j2, by omega⟩)
+  | false =>
+    have hlim1 : limit c = c.maxq := by unfold limit; simp [hnv]
+    have hv := lowestUnused_not_mem (activeIds st.hs)
+    have hl := lowestUnused_le_length (activeIds st.hs) hi.nodup
+    refine ⟨{ st with hs := st.hs ++ List.replicate n ⟨lowestUnused (activeIds st.hs), true⟩ },
+      lowestUnused (activeIds st.hs), ?_, ?_, ?_⟩
+    · simp [createEnt, hnv]
+    · intro hs
+      simp only [Cfg.single, hnv, Bool.false_or, beq_iff_eq] at hs
+      have hl0 : (activeIds st.hs).length = 0 := by omega
+      rw [List.eq_nil_of_length_eq_zero hl0]; exact lowestUnused_nil
+    · have hr := releaseLast_append st.hs (List.replicate n ⟨lowestUnused (activeIds st.hs), true⟩) n (by simp)
+      simp only [hr]
+      exact inv_loop hi b _ _ (activeIds_release _ _)
+        (fun d hd => by rw [mem_replicate_imp hd]; exact ⟨hv, by omega⟩)
+
+theorem inv_seq {c : Cfg} {st : St} (hi : Inv c st) {r : Bool} {n : Nat} {b : Body}
+    (hb : (activeIds st.hs).length + 1 ≤ limit c) :
+    Inv c (apply c st (.seq r n b)).1 ∧ (apply c st (.seq r n b)).2.fatal = false := by
+  obtain ⟨st1, d, e1, hd, i1⟩ := inv_loop_sequential hi n b hb
+  simp only [apply, e1]
+  refine ⟨?_, rfl⟩
+  by_cases hs : c.single = true
+  · simp only [hs, if_true]
+    rw [hd hs] at i1
+    exact i1
+  · simp only [hs]
+    exact i1
+
+theorem inv_ctx {c : Cfg} {st : St} (hi : Inv c st) {r : Bool} {n : Nat} {sq : Bool} {b : Body}
+    (hk : (sq = false ∧ c.maxq < n) ∨
+      ((sq || c.single) = true ∧ (activeIds st.hs).length + 1 ≤ limit c) ∨
+      ((sq || c.single) = false ∧ (activeIds st.hs).length + n ≤ limit c)) :
+    Inv c (apply c st (.ctx r n sq b)).1 ∧ (apply c st (.ctx r n sq b)).2.fatal = false := by
+  simp only [apply]
+  by_cases hv : (!sq && decide (c.maxq < n)) = true
+  · rw [if_pos hv]; exact ⟨hi, rfl⟩
+  · rw [if_neg hv]
+    rcases hk with ⟨h1, h2⟩ | ⟨h1, h2⟩ | ⟨h1, h2⟩
+    · exfalso; apply hv; simp [h1, h2]
+    · obtain ⟨st1, d, e1, _, i1⟩ := inv_loop_sequential hi n b h2
+      rw [h1, e1]
+      exact ⟨i1, rfl⟩
+    · rw [h1]
+      have hnv : c.nv = false := by
+        simp only [Bool.or_eq_false_iff, Cfg.single] at h1
+        exact h1.2.1
+      obtain ⟨i1, i2, i3, i4, i5, i6, i7⟩ := genEnt_spec n st hi.nodup
+      obtain ⟨new, en, hl⟩ := genEnt_hs n st
+      have hce : createEnt c st n false = .ok (genEnt st n) := by simp [createEnt, hnv]
+      rw [hce]
+      refine ⟨?_, rfl⟩
+      have hlim := limit_le c
+      have hr := releaseLast_append st.hs new n hl
+      have key := inv_loop hi b (st.hs ++ new.map (fun q => (⟨q.id, false⟩ : Handle))) (genEnt st n).2
+        (activeIds_release _ _)
+        (fun d hd => ⟨fun hm => (List.nodup_append.mp i5).2.2 d hm d hd rfl, by have := i7 d hd; omega⟩)
+      show Inv c ⟨releaseLast n (genEnt st n).1.hs, (genEnt st n).1.evs ++ _, none, (genEnt st n).1.unit⟩
+      rw [en, hr, i1, i3]; exact key
+
 theorem inv_apply {c : Cfg} {st : St} {op : Op} (hi : Inv c st) (hok : opOk c st op = true) :
     Inv c (apply c st op).1 ∧ (apply c st op).2.fatal = false := by
   cases op with
@@ -1049,8 +1216,26 @@ theorem inv_apply {c : Cfg} {st : St} {op : Op} (hi : Inv c st) (hok : opOk c st
     simp only [opOk, Bool.and_eq_true, Bool.or_eq_true, decide_eq_true_eq, Bool.not_eq_true',
       beq_iff_eq] at hok
     exact inv_keep hi hok.1 hok.2
-  | seq r n b => simp [opOk] at hok
-  | ctx r n s b => simp [opOk] at hok
+  | seq r n b =>
+    simp only [opOk, decide_eq_true_eq] at hok
+    exact inv_seq hi hok
+  | ctx r n sq b =>
+    apply inv_ctx hi
+    simp only [opOk] at hok
+    cases hs : (sq || c.single) with
+    | true =>
+      rw [hs] at hok
+      simp only [if_true, Bool.or_eq_true, Bool.and_eq_true, Bool.not_eq_true', decide_eq_true_eq] at hok
+      rcases hok with h | h
+      · exact Or.inl h
+      · exact Or.inr (Or.inl ⟨rfl, h⟩)
+    | false =>
+      rw [hs] at hok
+      simp only [Bool.false_eq_true, if_false, Bool.or_eq_true, Bool.and_eq_true, Bool.not_eq_true',
+        decide_eq_true_eq] at hok
+      rcases hok with h | h
+      · exact Or.inl h
+      · exact Or.inr (Or.inr ⟨rfl, h⟩)
   | flush =>
     obtain ⟨i1, i2, _, _⟩ := inv_flush hi
     exact ⟨i1, by simp only [apply]; rw [i2]; rfl⟩
